@@ -504,6 +504,9 @@ func (t *Target) gnmiUpdate(n *pb.Notification) (*ctree.Leaf, error) {
 		suffix = nil
 	}
 	path := joinPrefixAndPath(n.Prefix, suffix)
+	if len(path) == 0 || (len(path) == 1 && path[0] == metadata.Root) {
+		return nil, fmt.Errorf("invalid path %q for an update", path)
+	}
 	if path[0] == metadata.Root {
 		realData = false
 		u := n.Update[0]
@@ -623,7 +626,7 @@ func toDeleteNotification(n *pb.Notification, timestamp int64) *pb.Notification 
 
 func (t *Target) gnmiRemove(n *pb.Notification) []*ctree.Leaf {
 	path := joinPrefixAndPath(n.Prefix, n.Delete[0])
-	if path[0] == metadata.Root {
+	if len(path) > 1 && path[0] == metadata.Root {
 		t.meta.ResetEntry(path[1])
 	}
 	var leaves []*ctree.Leaf
